@@ -19,10 +19,11 @@
 package didnuts
 
 import (
+	"crypto"
+	"encoding/base64"
 	"encoding/json"
 	"errors"
 	"fmt"
-	"github.com/lestrrat-go/jwx/v2/jwk"
 	ssi "github.com/nuts-foundation/go-did"
 	"github.com/nuts-foundation/go-did/did"
 	"github.com/nuts-foundation/nuts-node/network/transport"
@@ -81,8 +82,12 @@ func (v verificationMethodValidator) verifyThumbprint(method *did.VerificationMe
 	if keyAsJWK == nil {
 		return errors.New("missing publicKeyJwk")
 	}
-	_ = jwk.AssignKeyID(keyAsJWK)
-	if keyAsJWK.KeyID() != method.ID.Fragment {
+	// calculate the thumbprint here: jwk.AssignKeyID leaves a kid that the JWK already carries as it is
+	thumbprint, err := keyAsJWK.Thumbprint(crypto.SHA256)
+	if err != nil {
+		return fmt.Errorf("unable to generate key thumbprint: %w", err)
+	}
+	if base64.RawURLEncoding.EncodeToString(thumbprint) != method.ID.Fragment {
 		return errors.New("key thumbprint does not match ID")
 	}
 	return nil
